@@ -92,11 +92,13 @@ def so_wave(time, zpos, trad_bc_ev, opac, alpha):
     vans = vsolution(xpos, tau, epsilon, uans)
 
     # compute the physical solution
-    erad = uans * ener_in
+    # (far ahead of the wave the quadrature round-off can leave the vanishing
+    # energy densities slightly negative; the fourth root would be complex)
+    erad = max(uans, 0.0) * ener_in
     trad = (erad / asol)**0.25
     trad_ev = trad * kev
 
-    tmat = (vans * ener_in / asol)**0.25
+    tmat = (max(vans, 0.0) * ener_in / asol)**0.25
     tmat_ev = tmat * kev
 
     return erad, trad, trad_ev, tmat, tmat_ev
